@@ -209,17 +209,21 @@ def make_pair(r, lay, whitelist, kind, rid, case_id, hdr_kind='illumina', index_
     return {'id': rid, 'kind': kind, 'reads': reads, 'planted': planted, 'hdr': hdr_kind, 'index': index_seq}
 
 
-def write_fastq(paths, pairs, gz=True, final_newline=True):
-    """final_newline=False: the last line of every file is not newline-terminated (files cut by `head -c`, written by other tools)"""
-    ops = [(gzip.open(p, 'wt') if (gz and p.endswith('.gz')) or (gz and not p.endswith('.fastq')) else open(p, 'w')) for p in paths]
+def write_fastq(paths, pairs, gz=True, final_newline=True, form='plain'):
+    """final_newline=False: the last line of every file is not newline-terminated (files cut by `head -c`, written by other tools)
+    form: 'plain' | 'crlf' (Windows line ends) | 'plusname' (the separator line repeats the read name, as older Illumina / SRA files do)"""
+    nl = '\r\n' if form == 'crlf' else '\n'
+    ops = [(gzip.open(p, 'wt', newline='') if (gz and p.endswith('.gz')) or (gz and not p.endswith('.fastq')) else open(p, 'w', newline='')) for p in paths]
     texts = [[] for _ in paths]
     for pr in pairs:
         for t, rd in zip(texts, pr['reads']):
-            t.append('\n'.join(rd) + '\n')
+            if form == 'plusname':
+                rd = (rd[0], rd[1], '+' + rd[0][1:], rd[3])
+            t.append(nl.join(rd) + nl)
     for f, t in zip(ops, texts):
         data = ''.join(t)
-        if not final_newline and data.endswith('\n'):
-            data = data[:-1]
+        if not final_newline and data.endswith(nl):
+            data = data[:-len(nl)]
         f.write(data)
         f.close()
 
